@@ -1363,9 +1363,27 @@ func (p *balloons) validateConfig(bpoptions *BalloonsOptions) error {
 }
 
 // setConfig takes new balloon configuration into use.
-func (p *balloons) setConfig(bpoptions *BalloonsOptions) error {
+func (p *balloons) setConfig(bpoptions *BalloonsOptions) (retErr error) {
 	cfgoptions := bpoptions.DeepCopy()
 	bpoptions = bpoptions.DeepCopy()
+
+	// A configuration that turns out to be unusable must leave the
+	// policy as it was: restore everything touched below on failure.
+	saved := *p
+	defer func() {
+		if retErr == nil || saved.bpoptions == nil {
+			return
+		}
+		*p = saved
+		if err := p.resetCpuClass(); err != nil {
+			log.Warnf("failed to reset CPU class: %v", err)
+		}
+		for _, bln := range p.balloons {
+			if err := p.useCpuClass(bln); err != nil {
+				log.Warnf("failed to apply CPU class to balloon %s: %v", bln.PrettyName(), err)
+			}
+		}
+	}()
 
 	// Handle AvailableResources.cpus, if defined.
 	// Set p.allowed: CPUs available for the policy.
